@@ -1,6 +1,6 @@
 (* C11 Qualifier collection behaves as a case-insensitive sorted map *)
 Load "coq/props/Hdr".
-From PM Require Import Quals2 Quals3 Quals4 Quals5 Final Exec Refine.
+From PM Require Import Quals2 Quals3 Quals4 Quals5 Final Exec Refine Alpha.
 Lemma src_cfg_ok : cfg_ok cfg. Proof. sc. Qed.
 Theorem C11_reachable_invariant : forall (ops : list qop) q, QInv cfg q -> QInv cfg (fold_left (qstep cfg) ops q).
 Proof. apply C11_reachable; sc. Qed.
@@ -107,3 +107,7 @@ Theorem C11_invalid_key_every_operation : forall q k, valid_key cfg k = false ->
   /\ qxstep cfg q (QIns k v) = (q, XoE) /\ qxstep cfg q (QRem k) = (q, XoOpt None) /\ qxstep cfg q (QGet k) = (q, XoOpt None) /\ qxstep cfg q (QHas k) = (q, XoB false).
 Proof. apply entry_invalid_key. Qed.
 Print Assumptions C11_invalid_key_every_operation.
+(* invalid keys are: empty, or containing anything but ASCII letters, digits, '.', '-', '_' *)
+Theorem C11_key_alphabet_is_the_documented_one : forall k, valid_key cfg k = doc_valid_key k.
+Proof. apply valid_key_is_documented. vm_compute. reflexivity. Qed.
+Print Assumptions C11_key_alphabet_is_the_documented_one.
